@@ -5,7 +5,10 @@ LINKS = ["await_coro", "await_gencoro", "await_obj_wrapper", "await_obj_gen", "y
          "async_for", "asend", "anext", "athrow", "aclose", "in_aexit", "in_with_body",
          # asend(VALUE) into a running async generator; VALUE = suspended async generator / generator / coroutine /
          # an object with generator-like attributes / an int
-         "asend_val0", "asend_val1", "asend_val2", "asend_val3", "asend_val4"]
+         "asend_val0", "asend_val1", "asend_val2", "asend_val3", "asend_val4",
+         # the anext() builtin, one- and two-argument forms, over a native async generator and over a class-based
+         # async iterator whose __anext__ is a coroutine function
+         "anext_builtin", "anext_default", "anext_custom", "anext_custom_default"]
 ENDS = ["trap", "trap", "fut", "listiter", "falsyiter"]
 OUTERS = ["coro", "coro", "gen", "gencoro", "agen"]
 
